@@ -1,4 +1,5 @@
 import VModel.Csv
+import VProofs.C01
 import VProofs.Lemmas.CsvSplit
 /-!
 # C19 — Dictionary edits act as documented; dump and replace are lossless
@@ -48,4 +49,25 @@ example : parseWeights (joinWeights [-2147483648, 0, 7, 2147483647]) = some [-21
 /-- non-vacuity: a malformed column and an out-of-range weight are rejected -/
 example : parseWeights "1  2".toList = none ∧ parseWeights "2147483648".toList = none := by decide
 
+/-- at the level of the predictor (C19_replace_delta ∘ C01_scores): for well-formed models before and after the edit, the
+reported score of every boundary changes by exactly the new entries' minus the old entries' dictionary weights -/
+theorem C19_predictor_delta (cfg : Cfg) (m : WModel) (d' : List DictWord) (hm : WFModel m) (hm' : WFModel (m.replaceDict d'))
+    (pt : Bool) (p p' : Predictor) (hp : Predictor.new cfg m pt = .ok p)
+    (hp' : Predictor.new cfg (m.replaceDict d') pt = .ok p') (s : Sentence) (hs : SentOK s) (pid : Nat) :
+    ∃ s1 s2 sc1 sc2, p.predict pid s = .ok s1 ∧ p'.predict pid s = .ok s2 ∧
+      s1.boundaryScores = .ok sc1 ∧ s2.boundaryScores = .ok sc2 ∧
+      ∀ b, b < s.text.length - 1 →
+        sc2.getD b 0 - sc1.getD b 0 = dictScore d' s.text b - dictScore m.dict s.text b := by
+  obtain ⟨s1, e1, a1, _⟩ := C01_scores cfg m hm pt p hp s hs pid
+  obtain ⟨s2, e2, a2, _⟩ := C01_scores cfg (m.replaceDict d') hm' pt p' hp' s hs pid
+  refine ⟨s1, s2, _, _, e1, e2, a1, a2, ?_⟩
+  intro b hb
+  have h1 : (specScores m s.text).getD b 0 = specScore m s.text b := by
+    simp [specScores, List.getD_eq_getElem?_getD, hb]
+  have h2 : (specScores (m.replaceDict d') s.text).getD b 0 = specScore (m.replaceDict d') s.text b := by
+    simp [specScores, List.getD_eq_getElem?_getD, hb]
+  rw [h1, h2]
+  exact C19_replace_delta m d' s.text b
+
 end V
+
